@@ -10,7 +10,7 @@ from vlib.harness.runner import Result, Part, exc_signature
 from vlib.ref import netaddr
 from vlib.sim.core import MS, SimHorizon
 from vlib.checks import c03_config
-from vlib.checks.netutil import Net
+from vlib.checks.netutil import with_id0, Net
 
 PROPERTY = "C07"
 LEVEL = "exploration"
@@ -79,7 +79,7 @@ class CyclicLoss:
 
 def run_case(case):
     res = Result()
-    net = Net(horizon_ms=600_000)
+    net = Net(horizon_ms=600_000, id0=case.get("id0", 0))
     loss = CyclicLoss(case.get("loss", "D"))
     net.med.fault = loss
     problems = []
@@ -310,7 +310,12 @@ def _enum_deaf():
                                    "ops": [["deaf", who, how], [call, who, dst, typ, ln], ["idle", 0, 1], [call, who, dst, typ, ln]]}
 
 
-def parts(tier):
+def _parts(tier):
     if tier == "quick":
         return [Part("deaf-then-write", "enum", _enum_deaf, exhaustive=True), Part("generated", "gen", _strategy, n=240)]
     return [Part("deaf-then-write", "enum", _enum_deaf, exhaustive=True), Part("generated", "gen", _strategy, n=6000)]
+
+
+def parts(tier):
+    # every case also carries a starting value of the 16-bit frame-id counter (netutil.with_id0)
+    return [with_id0(p) for p in _parts(tier)]
